@@ -43,6 +43,11 @@ pub struct World {
     pub partial: Vec<(String, usize)>,
     /// reply payloads served instead of asking the Lean broker (table extraction, hostile replies)
     pub canned: VecDeque<Vec<u8>>,
+    /// number of request frames forwarded since the scenario started
+    pub req_index: usize,
+    /// raw stream bytes delivered in place of the reply to the request with this index (size prefix included - or not:
+    /// the bytes are whatever the "broker" writes)
+    pub raw_replies: HashMap<usize, Vec<u8>>,
 }
 
 pub type Shared = Rc<RefCell<World>>;
@@ -81,6 +86,14 @@ impl MemStream {
                 continue;
             }
             let r = w.lean.req(&self.host, &frame);
+            let idx = w.req_index;
+            w.req_index += 1;
+            if let Some(raw) = w.raw_replies.remove(&idx) {
+                let line = format!("RAW {} {}", hex(self.host.as_bytes()), hex(&raw));
+                w.lean.log(&line);
+                self.rbuf.extend(raw);
+                continue;
+            }
             if let Some(p) = r.strip_prefix("RESP ") {
                 let payload = unhex(p);
                 self.rbuf.extend((payload.len() as i32).to_be_bytes());
@@ -231,6 +244,8 @@ pub fn new_world() -> Shared {
         reads: 0,
         partial: Vec::new(),
         canned: VecDeque::new(),
+        req_index: 0,
+        raw_replies: HashMap::new(),
     }));
     install(&w);
     w
